@@ -1,26 +1,43 @@
-//! Uninterpreted `hand_rank_value_and_hand` for the *wiring* harnesses: the trait-default entry points
-//! (`hand_rank_value`, `hand_rank`, `hand_rank_validated`) and the validated entry point are checked against
-//! an arbitrary primitive.  The stub returns one pre-drawn arbitrary result for the expected hand (so repeated
-//! calls agree, as for any function) and records whether it was called at all.
+//! Uninterpreted `hand_rank_value_and_hand` for the *wiring* and *history* harnesses: the trait-default entry
+//! points (`hand_rank_value`, `hand_rank`, `hand_rank_validated`) and the validated entry point are checked against
+//! an arbitrary primitive.  The stub returns pre-drawn arbitrary results for up to two expected hands (so repeated
+//! calls agree, as for any function), fresh values for anything else, and counts its calls.
 use ckc_rs::cards::five::Five;
 
-pub static mut EXPECT: [u32; 7] = [0; 7];
-pub static mut NSLOT: usize = 0;
-pub static mut VAL: u16 = 0;
-pub static mut HAND: [u32; 5] = [0; 5];
+pub static mut EXPECT: [[u32; 7]; 2] = [[0; 7]; 2];
+pub static mut NSLOT: [usize; 2] = [0; 2];
+pub static mut VAL: [u16; 2] = [0; 2];
+pub static mut HAND: [[u32; 5]; 2] = [[0; 5]; 2];
+pub static mut NEXP: usize = 0;
 pub static mut CALLS: u32 = 0;
 pub static mut VVAL: u16 = 0;
 
-pub fn expect(a: &[u32], val: u16, hand: [u32; 5]) {
+fn set(i: usize, a: &[u32], val: u16, hand: [u32; 5]) {
     unsafe {
-        NSLOT = a.len();
-        let mut i = 0;
-        while i < a.len() {
-            EXPECT[i] = a[i];
-            i += 1;
+        NSLOT[i] = a.len();
+        let mut k = 0;
+        while k < a.len() {
+            EXPECT[i][k] = a[k];
+            k += 1;
         }
-        VAL = val;
-        HAND = hand;
+        VAL[i] = val;
+        HAND[i] = hand;
+    }
+}
+
+pub fn expect(a: &[u32], val: u16, hand: [u32; 5]) {
+    set(0, a, val, hand);
+    unsafe {
+        NEXP = 1;
+        CALLS = 0;
+    }
+}
+
+pub fn expect2(a0: &[u32], val0: u16, hand0: [u32; 5], a1: &[u32], val1: u16, hand1: [u32; 5]) {
+    set(0, a0, val0, hand0);
+    set(1, a1, val1, hand1);
+    unsafe {
+        NEXP = 2;
         CALLS = 0;
     }
 }
@@ -33,19 +50,24 @@ pub fn calls() -> u32 {
 fn answer(a: &[u32]) -> (u16, Five) {
     unsafe {
         CALLS += 1;
-        let mut same = a.len() == NSLOT;
-        let mut i = 0;
-        while i < a.len() {
-            if EXPECT[i] != a[i] {
-                same = false;
+        let mut e = 0;
+        while e < 2 {
+            if e < NEXP {
+                let mut same = a.len() == NSLOT[e];
+                let mut i = 0;
+                while i < a.len() {
+                    if EXPECT[e][i] != a[i] {
+                        same = false;
+                    }
+                    i += 1;
+                }
+                if same {
+                    return (VAL[e], Five::from(HAND[e]));
+                }
             }
-            i += 1;
+            e += 1;
         }
-        if same {
-            (VAL, Five::from(HAND))
-        } else {
-            (kani::any(), Five::from(kani::any::<[u32; 5]>()))
-        }
+        (kani::any(), Five::from(kani::any::<[u32; 5]>()))
     }
 }
 
